@@ -3,7 +3,7 @@ use crate::ast::*;
 use crate::rng::Rng;
 use crate::run::*;
 use crate::Ctx;
-use liquid_core::model::{Object, State, Value};
+use liquid_core::model::{Object, State, Value, ValueViewCmp};
 
 /// the ~30-value pool; `lit` = has a literal syntax
 pub fn pool() -> Vec<(&'static str, Value, bool)> {
@@ -56,6 +56,33 @@ fn case(ctx: &mut Ctx, parser: &liquid::Parser, kind: &str, t: Vec<Node>, data: 
     ctx.emit(render_case("c06", kind, &t, data, &[], &obs));
 }
 
+/// What the value model's own equality / ordering (the Rust API the property names) says about
+/// `a op b`; `None` for `contains`, which has no API counterpart.
+fn api_truth(op: CmpOp, a: &Value, b: &Value) -> Option<bool> {
+    let (x, y) = (ValueViewCmp::new(a), ValueViewCmp::new(b));
+    Some(match op {
+        CmpOp::Eq => x == y,
+        CmpOp::Ne => x != y,
+        CmpOp::Lt => x < y,
+        CmpOp::Gt => x > y,
+        CmpOp::Le => x <= y,
+        CmpOp::Ge => x >= y,
+        CmpOp::Contains => return None,
+    })
+}
+
+/// an operator case: the branch the template takes must be the one the value API dictates
+fn op_case(ctx: &mut Ctx, parser: &liquid::Parser, kind: &str, t: Vec<Node>, data: &Object, op: CmpOp, a: &Value, b: &Value) {
+    let obs = render_text(parser, &src_tmpl(&t), data);
+    let mut k = kind.to_string();
+    if let (Some(want), Obs::Ok(s)) = (api_truth(op, a, b), &obs) {
+        if s != if want { "T" } else { "F" } {
+            k = format!("OPAPI:{}", kind);
+        }
+    }
+    ctx.emit(render_case("c06", &k, &t, data, &[], &obs));
+}
+
 fn ite(c: Cond, mode: bool) -> Vec<Node> {
     vec![Node::Cond { c, mode, thn: vec![text("T")], els: Some(vec![text("F")]), elsif: false }]
 }
@@ -71,11 +98,11 @@ pub fn run(ctx: &mut Ctx) {
     for op in OPS {
         for (na, va, la) in &pool {
             for (nb, vb, lb) in &pool {
-                case(ctx, &parser, "op-var", ite(Cond::Bin(var(na), op, var(nb)), true), &data);
+                op_case(ctx, &parser, "op-var", ite(Cond::Bin(var(na), op, var(nb)), true), &data, op, va, vb);
                 if *la && *lb {
-                    case(ctx, &parser, "op-lit", ite(Cond::Bin(Expr::Lit(va.clone()), op, Expr::Lit(vb.clone())), true), &data);
+                    op_case(ctx, &parser, "op-lit", ite(Cond::Bin(Expr::Lit(va.clone()), op, Expr::Lit(vb.clone())), true), &data, op, va, vb);
                 } else if *la {
-                    case(ctx, &parser, "op-mixed", ite(Cond::Bin(Expr::Lit(va.clone()), op, var(nb)), true), &data);
+                    op_case(ctx, &parser, "op-mixed", ite(Cond::Bin(Expr::Lit(va.clone()), op, var(nb)), true), &data, op, va, vb);
                 }
             }
         }
